@@ -450,6 +450,10 @@ pub fn run_items(ctx: &Ctx, items: Vec<Item>, out: &mut Outcome, wall_cap: f64) 
                     return Err(format!("SKIPPED {}", it.name));
                 }
                 it.bounds.wall_s = it.bounds.wall_s.min(l);
+                // Lance's commit back-off sleeps are real and scale with the wall-clock duration of
+                // the first attempt (which includes the time parked at the gate): on a loaded
+                // machine a retried schedule can legitimately sleep for many seconds
+                it.bounds.hang_s = 240.0;
                 let name = it.name.clone();
                 run_item(&it, per).map_err(|e| format!("{name}: {e}"))
             });
